@@ -103,6 +103,43 @@ SHARE_VALUES = ["1", "2.5", "-3", "True", '"s"', "0x10", "None"]
 LOG_RULES = ["once", "never", "always", "update", "change", "streak", "deck"]
 
 
+_KW_NAMES = None
+
+
+def kw_param_names():
+    """the parameter names of the methods that are called with `**inits` / `**parms` / `**ioinits` (and the like)
+    somewhere in the builder-side modules, taken from the AST of the tree under test: a field of a `do … with / cum /
+    per / from / for / qua` clause named like one of them reaches that call as a keyword argument"""
+    global _KW_NAMES
+    if _KW_NAMES is None:
+        import ast
+        trees = []
+        for rel in ("acting.py", "doing.py", "needing.py", "fiating.py", "wanting.py", "completing.py", "poking.py",
+                    "goaling.py", "deeding.py", "framing.py", "tasking.py"):
+            path = os.path.join(core.REPO, "ioflo", "base", rel)
+            if os.path.exists(path):
+                with open(path, encoding="utf-8") as f:
+                    trees.append(ast.parse(f.read()))
+        called = set()
+        for t in trees:
+            for n in ast.walk(t):
+                if isinstance(n, ast.Call) and any(k.arg is None for k in n.keywords):
+                    f = n.func
+                    called.add(f.attr if isinstance(f, ast.Attribute) else f.id if isinstance(f, ast.Name) else "")
+        # a call of an instance or a class goes to __call__ / __init__ / action
+        called |= {"__init__", "__call__", "action"}
+        names = {}
+        for t in trees:
+            for n in ast.walk(t):
+                if isinstance(n, ast.FunctionDef) and n.name in called:
+                    a = n.args
+                    for x in a.posonlyargs + a.args + a.kwonlyargs + [y for y in (a.vararg, a.kwarg) if y]:
+                        names[x.arg] = names.get(x.arg, 0) + 1
+        # a name many of these methods have is drawn more often (at most 12 to 1)
+        _KW_NAMES = [n for n in sorted(names) for _ in range(min(names[n], 12))]
+    return _KW_NAMES
+
+
 class ShareGen(object):
     """Scripts about shares and their fields.  A few shares are created with known fields (`init … with`); then every
     verb that takes a share reference with an optional field list — init … from, server … for, loggee, put, copy, set,
@@ -113,6 +150,7 @@ class ShareGen(object):
     def __init__(self, rng):
         self.r = rng
         self.have = {}                     # path -> list of fields created so far
+        self.kw = kw_param_names()
 
     def direct(self, fields=None):
         r = self.r
@@ -120,6 +158,9 @@ class ShareGen(object):
             fields = r.choice([[], r.sample(SHARE_FIELDS, r.randrange(1, 3)), r.sample(SHARE_FIELDS, 1), ["value"]])
         if not fields:
             return [r.choice(SHARE_VALUES)]
+        if r.random() < 0.15:              # a field named like a parameter of the method that receives the fields
+            fields = list(fields)
+            fields[r.randrange(len(fields))] = r.choice(self.kw)
         out = []
         for f in fields:
             out += [f, r.choice(SHARE_VALUES)]
@@ -164,8 +205,11 @@ class ShareGen(object):
         for path in r.sample(SHARE_PATHS, r.randrange(1, 4)):
             fields = r.choice([r.sample(SHARE_FIELDS, r.randrange(1, 4)), r.sample(SHARE_FIELDS, r.randrange(2, 4)),
                                r.sample(SHARE_FIELDS, 1), ["value"], []])
-            out.append(["init", path, "with"] + self.direct(fields))
-            self.have[path] = fields or ["value"]
+            if fields and fields != ["value"] and r.random() < 0.2:
+                fields = fields + [r.choice(self.kw)]      # so that `from / for / qua <that field> in <share>` can name it
+            d = self.direct(fields)
+            out.append(["init", path, "with"] + d)
+            self.have[path] = d[0::2] if len(d) > 1 else ["value"]
         for _ in range(r.randrange(0, 3)):
             out.append(["init"] + self.ref() + ["from"] + self.ref())
         if r.random() < 0.35:
@@ -371,7 +415,9 @@ class CHECK(core.Check):
             "as a script built by the real Builder under a 2 s limit; (b) scripts: generated runnable programs and the "
             "shipped example plans with 1-3 random token/line mutations (delete, insert, replace from a pool of reserved "
             "words, verbs, option words, odd numbers such as 1j/inf/nan/1e400, broken paths; duplicate, delete, move a "
-            "line), built under a 6 s limit; (c) share-reference scripts (30% of the scripts): shares created with known fields, then "
+            "line), built under a 6 s limit; (c) share-reference scripts (30% of the scripts): shares created with known fields (now and then one named like a "
+            "parameter of a method that is called with **inits / **parms / **ioinits — self, name, store, act, kwa, …: the list "
+            "is read from the AST of the tree), then "
             "init-from / server-for / loggee / put / copy / set / inc / do from,for,qua,with,per,cum / bid-at / go,let-if given "
             "references to a share that has the named field, lacks it, has more, holds `value`, is a node, or does not exist, "
             "with and without the `fields in` clause on either side, absolute and relative; (d) need scripts (25%): every need form "
